@@ -373,6 +373,36 @@ fn exec_items(inv: &Inv, k: usize, rot: usize) -> Vec<PushProgram> {
     (0..k).map(|j| pool[(rot + j) % pool.len()].clone()).collect()
 }
 
+fn check_instr_case(d: &mut Driver, r: &mut Report, spec: &StateSpec, p: &PushProgram, sample: bool) {
+    let mut ptoks = Vec::new();
+    prog_tokens(p, &mut ptoks);
+    let req = format!("push perform {} | {}", spec.request_body(), ptoks.join(" "));
+    let (real, unchanged) = real_perform(spec, p);
+    let (impl_r, spec_r) = split_reply(&d.ask(&req));
+    let model = render_model(&impl_r);
+    let spec_s = render_model(&spec_r);
+    let real = norm(&real);
+    let kind = real.split(' ').next().unwrap_or("").split(':').next().unwrap_or("").to_string();
+    let iname = ptoks.first().cloned().unwrap_or_default().split(':').next().unwrap_or("").to_string();
+    r.case(&req, kind == "ok" || kind == "fatal");
+    r.hit(&format!("outcome {kind}"));
+    r.hit(&format!("instr {iname} {kind}"));
+    if sample { r.sample(json!({"request": req, "real": real})); }
+    let unbound = ptoks.first().map(|t| t == "V:unbound").unwrap_or(false);
+    if !unchanged {
+        r.violate(json!({"prop": "C02", "case": req, "real": real, "what": "the state carried by the error differs from the state before the instruction"}));
+    }
+    if real == "panic" && !unbound {
+        r.violate(json!({"prop": "C03", "case": req, "real": real, "what": "perform panicked although every mentioned input variable is bound"}));
+    }
+    if real != model {
+        r.disagree(json!({"case": req, "real": real, "impl": model}));
+    }
+    if !unbound && mask_payload(&real) != mask_payload(&spec_s) {
+        r.violate(json!({"prop": "C01", "case": req, "real": real, "spec": spec_s, "what": "outcome, stacks or output differ from what the instruction semantics (signature table / action tables) prescribe"}));
+    }
+}
+
 pub fn run_instr(cfg: &Cfg) -> Report {
     let inv = Inv::new();
     let cat = instr_catalogue(&inv);
@@ -407,34 +437,39 @@ pub fn run_instr(cfg: &Cfg) -> Report {
             bools: (0..nb).map(|k| (rot + k + ii) % 3 != 0).collect(),
             inputs: vec![("x".into(), LitV::I(INTS[rot % INTS.len()])), ("y".into(), LitV::F(fl[rot % fl.len()])), ("z".into(), LitV::B(rot % 2 == 0))],
         };
-        let mut ptoks = Vec::new();
-        prog_tokens(p, &mut ptoks);
-        let req = format!("push perform {} | {}", spec.request_body(), ptoks.join(" "));
-        let (real, unchanged) = real_perform(&spec, p);
-        let (impl_r, spec_r) = split_reply(&d.ask(&req));
-        let model = render_model(&impl_r);
-        let spec_s = render_model(&spec_r);
-        let real = norm(&real);
-        let kind = real.split(' ').next().unwrap_or("").split(':').next().unwrap_or("").to_string();
-        let iname = ptoks.first().cloned().unwrap_or_default().split(':').next().unwrap_or("").to_string();
-        r.case(&req, kind == "ok" || kind == "fatal");
-        r.hit(&format!("outcome {kind}"));
-        r.hit(&format!("instr {iname} {kind}"));
-        if idx % 9973 == 0 { r.sample(json!({"request": req, "real": real})); }
-        let unbound = ptoks.first().map(|t| t == "V:unbound").unwrap_or(false);
-        if !unchanged {
-            r.violate(json!({"prop": "C02", "case": req, "real": real, "what": "the state carried by the error differs from the state before the instruction"}));
-        }
-        if real == "panic" && !unbound {
-            r.violate(json!({"prop": "C03", "case": req, "real": real, "what": "perform panicked although every mentioned input variable is bound"}));
-        }
-        if real != model {
-            r.disagree(json!({"case": req, "real": real, "impl": model}));
-        }
-        if !unbound && mask_payload(&real) != mask_payload(&spec_s) {
-            r.violate(json!({"prop": "C01", "case": req, "real": real, "spec": spec_s, "what": "outcome, stacks or output differ from what the instruction semantics (signature table / action tables) prescribe"}));
-        }
+        check_instr_case(d, r, &spec, p, idx % 9973 == 0);
     });
+    // phase 2: operand sweep — every instruction with ALL pairs (triples for the top three) of the boundary
+    // pools as its operands (first operand = top), roomy and exactly-full capacities
+    let ni = INTS.len() as u64;
+    let nfl = fl.len() as u64;
+    let per_instr2 = (ni * ni + nfl * nfl + 8) * 2;
+    let total2 = per_instr2 * cat.len() as u64;
+    let sweep = run_sharded(&cfg.driver, cfg.threads, total2, || Report::new("push-instr", RULE_INSTR), |d, r, idx| {
+        let ii = (idx / per_instr2) as usize;
+        let mut j = idx % per_instr2;
+        let full = j % 2 == 1; j /= 2;
+        let p = &cat[ii];
+        let (ints, floats_v, bools): (Vec<i64>, Vec<f64>, Vec<bool>) = if j < ni * ni {
+            // bottom first: [third, second, top]
+            (vec![INTS[((j + ii as u64) % ni) as usize], INTS[(j / ni) as usize], INTS[(j % ni) as usize]], vec![fl[(j % nfl) as usize]], vec![j % 2 == 0, j % 3 == 0])
+        } else if j < ni * ni + nfl * nfl {
+            let q = j - ni * ni;
+            (vec![INTS[(q % ni) as usize]], vec![fl[((q + 1) % nfl) as usize], fl[(q / nfl) as usize], fl[(q % nfl) as usize]], vec![q % 2 == 0])
+        } else {
+            let q = j - ni * ni - nfl * nfl;
+            (vec![1, 2], vec![0.5], vec![q & 4 != 0, q & 2 != 0, q & 1 != 0])
+        };
+        let slack = if full { 0 } else { 3 };
+        let spec = StateSpec {
+            max_steps: 10,
+            exec_max: 2 + slack, int_max: ints.len() + slack, float_max: floats_v.len() + slack, bool_max: bools.len() + slack,
+            exec: exec_items(&inv, 2, ii), ints, floats: floats_v, bools,
+            inputs: vec![("x".into(), LitV::I(7)), ("y".into(), LitV::F(2.5)), ("z".into(), LitV::B(true))],
+        };
+        check_instr_case(d, r, &spec, p, idx % 9973 == 0);
+    });
+    rep.merge(sweep);
     // inventory: every instruction of the crates must exist in the model and vice versa
     let mut d = Driver::spawn(&cfg.driver);
     let mut model_names: Vec<String> = d.ask("push inventory").split(' ').map(|s| s.to_string()).collect();
@@ -446,7 +481,7 @@ pub fn run_instr(cfg: &Cfg) -> Report {
         rep.disagree(json!({"case": "inventory", "real": format!("only in the crates: {only_real:?}"), "impl": format!("only in the model: {only_model:?}")}));
     }
     rep.exhaustive = true;
-    rep.notes.push(format!("{} instructions/programs x {} fill patterns x {}^4 capacity patterns x {} value rotations = {} single-step cases; inventory of {} instruction names cross-checked", cat.len(), fills, nc, rots, total, real_names.len()));
+    rep.notes.push(format!("{} instructions/programs x {} fill patterns x {}^4 capacity patterns x {} value rotations = {} single-step cases; operand sweep: every instruction x all {}x{} int pairs, {}x{} float pairs, 8 bool triples x {{roomy, exactly full}} = {} cases; inventory of {} instruction names cross-checked", cat.len(), fills, nc, rots, total, ni, ni, nfl, nfl, total2, real_names.len()));
     rep
 }
 
@@ -610,4 +645,74 @@ pub fn run_run(cfg: &Cfg) -> Report {
     });
     rep.notes.push(format!("{n} programs, each run at its step limit and at smaller limits"));
     rep
+}
+
+// ---------------------------------------------------------------------------------------------
+// family push-det (C16): evaluation is a deterministic function of program, input values, limits —
+// independent of the order in which the inputs were declared
+// ---------------------------------------------------------------------------------------------
+
+const RULE_DET: &str = "seeded random programs that mention up to 4 input variables; the state is built with the real builder with \
+the inputs declared in every order (all permutations), and each is run twice; all runs must give the same canonical dump, and the dump of \
+the Lean model; non-trivial = at least two input variables are executed; distinct by request line";
+
+fn permutations(n: usize) -> Vec<Vec<usize>> {
+    if n == 0 { return vec![vec![]]; }
+    let mut out = Vec::new();
+    for p in permutations(n - 1) {
+        for i in 0..=p.len() { let mut q = p.clone(); q.insert(i, n - 1); out.push(q); }
+    }
+    out
+}
+
+pub fn run_det(cfg: &Cfg) -> Report {
+    let inv = Inv::new();
+    let n: u64 = if cfg.thorough { 20_000 } else { 1_000 };
+    let seed = cfg.seed;
+    run_sharded(&cfg.driver, cfg.threads, n, || Report::new("push-det", RULE_DET), |d, r, idx| {
+        let mut g = SplitMix::derive(seed ^ 0x16, idx);
+        let fl = floats();
+        let names = ["a", "b", "c", "d"];
+        let k = 1 + g.below(4) as usize;
+        let inputs: Vec<(String, LitV)> = (0..k).map(|j| (names[j].to_string(), match g.below(3) {
+            0 => LitV::I(*g.pick(&INTS)), 1 => LitV::F(*g.pick(&fl)), _ => LitV::B(g.chance(1, 2)) })).collect();
+        let plain = inv.plain();
+        let len = 2 + g.below(20);
+        let mut used = 0;
+        let mut program: Vec<PushProgram> = (0..len).map(|_| {
+            if g.chance(2, 5) { used += 1; PushProgram::Instruction(VariableName::from(names[g.below(k as u64) as usize]).into()) }
+            else if g.chance(1, 6) { PushProgram::Block(vec![PushProgram::Instruction(VariableName::from(names[g.below(k as u64) as usize]).into()), PushProgram::Instruction(g.pick(&plain).clone())]) }
+            else { PushProgram::Instruction(g.pick(&plain).clone()) }
+        }).collect();
+        program.reverse();
+        let spec0 = StateSpec { max_steps: 40 + g.below(40) as usize, exec_max: 64, int_max: 1 + g.below(8) as usize, float_max: 1 + g.below(8) as usize, bool_max: 1 + g.below(8) as usize,
+            exec: program, ints: vec![], floats: vec![], bools: vec![], inputs: inputs.clone() };
+        let req = format!("push run {}", spec0.request_body());
+        let (impl_r, _) = split_reply(&d.ask(&req));
+        let mut parts: Vec<&str> = impl_r.splitn(3, " | ").collect();
+        if parts.len() == 3 { parts.remove(1); }
+        let model = render_model(&parts.join(" | "));
+        let mut first: Option<String> = None;
+        let perms = permutations(k);
+        for perm in &perms {
+            let mut sp = spec0.clone();
+            sp.inputs = perm.iter().map(|j| inputs[*j].clone()).collect();
+            for _rep in 0..2 {
+                let (real, _) = real_run(&sp);
+                let real = norm(&real);
+                match &first {
+                    None => first = Some(real.clone()),
+                    Some(f) => if *f != real {
+                        r.violate(json!({"prop": "C16", "case": req, "declaration_order": format!("{perm:?}"), "first": f, "other": real,
+                            "what": "evaluating the same program with the same input values gave a different result (other declaration order or second run)"}));
+                    }
+                }
+            }
+        }
+        let real = first.unwrap_or_default();
+        r.case(&req, used >= 2);
+        r.hit(&format!("inputs {k} permutations {}", perms.len()));
+        if idx % 199 == 0 { r.sample(json!({"request": req, "real": real})); }
+        if real != model { r.disagree(json!({"case": req, "real": real, "impl": model})); }
+    })
 }
